@@ -1,6 +1,7 @@
 package main
 
 import (
+	"os"
 	"strings"
 )
 
@@ -408,8 +409,8 @@ func (o opts) qualified() bool { return spellings[o.T1].Qualified || spellings[o
 
 // ---- gap styles -----------------------------------------------------------------------------------
 
-var gapStylesThorough = []string{"\n", "\t", "/*c*/", "--c\n", "/* from x */", "  ", "\r\n", "\f", " /* c */ ", " -- c\n", "-- join y\n", "/*/*n*/*/", "/* ' */", "\n\t "}
-var gapStylesQuick = gapStylesThorough[:5]
+var gapStylesThorough = []string{"\n", "/*c*/", "--c\n", "/* from x */", "\t", "  ", "\r\n", "\f", " /* c */ ", " -- c\n", "-- join y\n", "/*/*n*/*/", "/* ' */", "\n\t "}
+var gapStylesQuick = gapStylesThorough[:4]
 var gapStylesUniformSmall = []string{"\n", "/*c*/", "--c\n", "/* ' */"}
 
 // sepVariants calls emit for the base query and for every separator variant: each single gap set to each
@@ -460,8 +461,12 @@ var families = []famInfo{
 // dropped), in a fixed order.
 func enumerate(quick bool, emit func(*query)) {
 	seen := map[string]bool{}
+	filter := os.Getenv("VERIF_C16_FILTER") // development aid: restrict to one family or template
 	out := func(fam string, hdrs []string) func(*query) {
 		return func(q *query) {
+			if filter != "" && fam != filter && q.Tmpl != filter {
+				return
+			}
 			sql := q.SQL()
 			for _, h := range hdrs {
 				k := h + "\x00" + sql
@@ -489,7 +494,8 @@ func enumerate(quick bool, emit func(*query)) {
 	if quick {
 		uniform = nil
 	}
-	// 1. separators
+	// 1. separators (quick: the per-gap product only for the small join-kind set; every join kind still gets
+	// the default rendering and the uniform styles)
 	for ti := range templates {
 		t := &templates[ti]
 		jks := []int{0}
@@ -499,7 +505,7 @@ func enumerate(quick bool, emit func(*query)) {
 		for _, jk := range jks {
 			o := opts{JK: jk}
 			if q, ok := build(t, o); ok {
-				sepVariants(q, styles, true, out("separators", hdrFor(o)))
+				sepVariants(q, styles, !quick || t.JKs != "all" || joinKinds[jk].Sub, out("separators", hdrFor(o)))
 			}
 		}
 	}
